@@ -431,6 +431,20 @@ Definition lookup {A} (tbl : list (string * option A)) (s : string) : option A :
 
 Inductive tri := Yes | No | Tie.
 
+(** the file's lines cut into grid rows of [nc] values, when every grid row
+    occupies a whole number (>= 1) of consecutive lines: one row per line, or a
+    genuinely wrapped layout.  [None] when some line straddles two grid rows or
+    holds more than one (a body that merely has the right number of values). *)
+Fixpoint regroup {A} (nc : nat) (acc : list A) (rows : list (list A)) : option (list (list A)) :=
+  match rows with
+  | [] => if is_nil acc then Some [] else None
+  | r :: t =>
+      let acc' := (acc ++ r)%list in
+      if (length acc' =? nc)%nat then option_map (cons acc') (regroup nc [] t)
+      else if (length acc' <? nc)%nat then regroup nc acc' t
+      else None
+  end.
+
 Section Decide.
 Variable pint : string -> option Z.
 Variable pflt : string -> option num.
@@ -453,10 +467,14 @@ Definition all_len {A} (n : nat) (rows : list (list A)) : bool :=
   forallb (fun r => (length r =? n)%nat) rows.
 
 (** "the returned grid is the file's grid": the header's shape, the file's
-    values in file order (row-major; for a file written one grid row per line
-    this is: row by row) with blanks as NaN, coordinates, attributes, dims,
-    dtype, and the header's range agrees with the body.  A wrapped layout may
-    be loaded this way or refused; the code refuses it (see the model). *)
+    values row by row with blanks as NaN - where the grid rows are the file's
+    lines (one grid row per line) or, for a wrapped layout, whole groups of
+    consecutive lines ([regroup]; such a layout may be loaded this way or
+    refused, and the code refuses it) -, coordinates, attributes, dims, dtype,
+    and the header's range agrees with the body.  A body that merely has
+    rows x columns values but whose lines do not line up with the header's
+    grid rows (swapped counts, another factorisation, lines holding several
+    grid rows) disagrees with its header: returning its re-cut is [No]. *)
 Definition grid_is_file (fileattr : option string) (dt : dtype) (f : list string) (g : ogrid) : tri :=
   match map_opt pint (split_ws (line f 1)),
         map_opt pflt (split_ws (line f 2)),
@@ -464,8 +482,11 @@ Definition grid_is_file (fileattr : option string) (dt : dtype) (f : list string
         map_opt pflt (split_ws (line f 4)),
         map_opt (map_opt pval) (body_rows f) with
   | Some [nr; nc], Some [Fin s; Fin n], Some [Fin w; Fin e], Some rng, Some rows =>
-      if (Z.of_nat (length (og_vals g)) =? nr)%Z && all_len (Z.to_nat nc) (og_vals g) && (0 <=? nc)%Z
-         && list_eqb num_eqb (concat (og_vals g)) (map (mask dt) (concat rows))
+      if match regroup (Z.to_nat nc) [] rows with
+         | Some grows => (Z.of_nat (length grows) =? nr)%Z
+                         && vals_eqb (map (map (mask dt)) grows) (og_vals g)
+         | None => false
+         end
          && coords_close (linspace (D2Q s) (D2Q n) (Z.to_nat nr)) (og_north g)
          && coords_close (linspace (D2Q w) (D2Q e) (Z.to_nat nc)) (og_east g)
          && String.eqb (og_id g) (strip (line f 0))
